@@ -1,14 +1,27 @@
 #!/bin/sh
-# eval_seeded.sh <seeded-dir> <check ids...> : apply the patch to /repo, run the demo and the quick checks, undo.
+# eval_seeded.sh <seeded-dir> <check ids...> : apply the patch to a scratch copy of /repo's tree, run the demo and
+# the quick checks against that copy (XSM_REPO_SRC), remove the copy.  (`--inplace` as first argument applies it
+# to /repo itself with `git apply` and undoes it with `git checkout -- .` afterwards, as the brief describes.)
+INPLACE=0
+if [ "$1" = "--inplace" ]; then INPLACE=1; shift; fi
 D="$1"; shift
-cd /repo || exit 2
-if [ -n "$(git status --short)" ]; then echo "/repo not clean"; exit 2; fi
-git apply "$D/patch.diff" || { echo "patch does not apply"; exit 2; }
-PYTHONPATH=/repo/src /venv/bin/python "$D/demo.py" >/dev/null 2>&1; echo "demo exit with change: $?"
+if [ $INPLACE = 1 ]; then
+  cd /repo || exit 2
+  if [ -n "$(git status --short)" ]; then echo "/repo not clean"; exit 2; fi
+  git apply "$D/patch.diff" || { echo "patch does not apply"; exit 2; }
+  SRC=/repo/src
+else
+  W=$(mktemp -d /tmp/seedeval.XXXXXX)
+  git -C /repo archive HEAD | tar -x -C "$W"
+  (cd "$W" && patch -p1 -s < "$D/patch.diff") || { echo "patch does not apply"; rm -rf "$W"; exit 2; }
+  SRC="$W/src"
+fi
+PYTHONPATH="$SRC" /venv/bin/python "$D/demo.py" >/dev/null 2>&1; echo "demo exit with change: $?"
 cd /verif
 for c in "$@"; do
-  ./check "$c" quick 2>/dev/null | grep "VIOLATION" | head -2
-  ./check "$c" quick >/dev/null 2>/tmp/eval_seeded_err.txt; echo "  check $c exit=$?  $(grep "^\[$c\]" /tmp/eval_seeded_err.txt)"
+  XSM_REPO_SRC="$SRC" ./check "$c" quick >/tmp/eval_seeded_out.txt 2>/tmp/eval_seeded_err.txt; rc=$?
+  grep "VIOLATION" /tmp/eval_seeded_out.txt | head -2
+  echo "  check $c exit=$rc  $(grep "^\[$c\]" /tmp/eval_seeded_err.txt)"
 done
-git -C /repo checkout -- .
+if [ $INPLACE = 1 ]; then git -C /repo checkout -- .; else rm -rf "$W"; fi
 PYTHONPATH=/repo/src /venv/bin/python "$D/demo.py" >/dev/null 2>&1; echo "demo exit without change: $?"
